@@ -1,5 +1,6 @@
 import BeffVerif.Props.C12
 import BeffVerif.Props.C12Nonempty
+import BeffVerif.Props.C12Paths
 open BeffVerif.C12
 #print axioms safeParse_errors_le_10
 #print axioms union_reports_one
@@ -8,3 +9,4 @@ open BeffVerif.C12
 #print axioms printErrors_deterministic
 #print axioms empty_intersection_reports_nothing
 #print axioms report_nonempty
+#print axioms report_paths_extend
